@@ -50,7 +50,16 @@ func runC26(c *Ctx) {
 					n++
 					shifted := derives(a, func(v ssa.Value) bool {
 						cl, ok := v.(*ssa.Call)
-						return ok && (callName(cl) == "(time.Time).Add" || callName(cl) == "(time.Time).AddDate")
+						if !ok || (callName(cl) != "(time.Time).Add" && callName(cl) != "(time.Time).AddDate") {
+							return false
+						}
+						// a constant shift into the past only delays eviction, which is safe
+						if callName(cl) == "(time.Time).Add" {
+							if k, isC := constInt(cl.Call.Args[1]); isC && k <= 0 {
+								return false
+							}
+						}
+						return true
 					}, false, 6)
 					c.Check(!shifted, "C26.NOW", fmt.Sprintf("%s|eviction-instant#%d", fn.Name(), n), call.Pos(), "eviction compares expiries with the unshifted clock reading", fn.Name()+" evicts against a shifted instant (now.Add(…)): a nonce is dropped before its retention (2×tolerance) has run out, and a byte-for-byte replay that is still timestamp-fresh is accepted")
 				}
